@@ -126,4 +126,52 @@ theorem barrierOld_panics :
 theorem barrier_fixed_witness :
     (((JGroup.new 2 : JGroup Nat).barrier 0 5).1.collect 2 1 10 7).2.2 = Status.ok := by decide
 
+/-- **join_flush (and totality)** — for EVERY arrival order of points and barriers, in any groups, with any
+(even unordered) times, any tolerance/fill: the join node (as repaired) never dereferences a nil queue
+(`Status.ok`: no panic, and the model's fuel is never exhausted), and after `Finish` no group has a pending
+set left: everything still buffered was handed to `emitJoinedSet`. -/
+theorem join_flush_no_panic (cfg : JCfg) (ops : List JOp) :
+    (JNode.run cfg ops).2.2 = Status.ok ∧ ∀ p ∈ (JNode.run cfg ops).1.groups, p.2.sets = [] := by
+  obtain ⟨r1, r2⟩ := JNode.runOps_ok cfg ops JNode.init (by intro p hp; simp [JNode.init] at hp)
+  obtain ⟨f1, f2⟩ := JNode.finish_ok (JNode.runOps cfg JNode.init ops).1.groups r2
+  unfold JNode.run
+  simp only []
+  exact ⟨by rw [r1, f1]; rfl, f2⟩
+
+/-- Non-vacuity: a run with a barrier, a lagging parent and a flush that emits three sets. -/
+example : let cfg : JCfg := { parents := 2, tol := 0, fill := .null, names := ["a", "b"], delim := ".", sname := "" }
+    let m (t : Int) : JMsg := { time := t, name := "m", grp := "", byName := false, dims := [], tags := [], fields := [("v", "i:1")] }
+    ((JNode.run cfg [.point 0 (m 1), .barrier 1 "" 0, .point 0 (m 2), .point 1 (m 2), .point 0 (m 3)]).2.1.map (·.time)) = [1, 2, 3] := by
+  decide
+
+/-- `time.Time.Round(tolerance)` is monotone, for every tolerance and all times (also before 1970): a parent
+that delivers in time order delivers in rounded-time order — the hypothesis `joinOrdered` of the pairing
+clause follows from plain time order. -/
+theorem round_monotone (d t t' : Int) (h : t ≤ t') : goRound d t ≤ goRound d t' := goRound_mono d t t' h
+
+/-- Full-strength statement of the pairing clause (stated, NOT yet proved; evaluated on every run by the spec
+oracle on the implementation's output — hook-driven runs with explicit arrival orders and real tasks — and
+tied by correspondence): when within every group every parent's rounded times never go back, then for
+EVERY arrival order the joined points emitted over the whole run (arrivals, then Finish) are, up to
+permutation, exactly `Spec.joinOutput`: per group and rounded time one point per occurrence index k, built
+from the k-th message of every parent that has one — dropped under an inner join unless all parents are
+present, filled otherwise. -/
+def join_pairs_by_occurrence_stmt : Prop :=
+  ∀ (cfg : JCfg) (ops : List JOp), cfg.names.length = cfg.parents → (∀ op ∈ ops, match op with
+      | .point src _ => src < cfg.parents | .barrier src _ _ => src < cfg.parents) →
+    joinOrdered cfg (ops.map (fun op => match op with
+      | .point src m => (src, m.grp, m.time) | .barrier src grp t => (src, grp, t))) →
+    (((JNode.run cfg ops).2.1).filterMap (joinIntoPoint cfg)).Perm
+      (joinOutput cfg (ops.filterMap (fun op => match op with | .point src m => some (src, m) | .barrier _ _ _ => none)))
+
+/-- Consequence of the statement above (stated, not proved): the multiset of join outputs is the same for any
+two arrival orders that are interleavings of the same per-parent sequences. -/
+def join_multiset_interleaving_independent_stmt : Prop :=
+  ∀ (cfg : JCfg) (a₁ a₂ : List (Nat × JMsg)), cfg.names.length = cfg.parents →
+    (∀ a ∈ a₁, a.1 < cfg.parents) → (∀ a ∈ a₂, a.1 < cfg.parents) →
+    (∀ i, i < cfg.parents → parentSeq i a₁ = parentSeq i a₂) →
+    joinOrdered cfg (a₁.map (fun a => (a.1, a.2.grp, a.2.time))) →
+    (((JNode.run cfg (a₁.map (fun a => JOp.point a.1 a.2))).2.1).filterMap (joinIntoPoint cfg)).Perm
+      (((JNode.run cfg (a₂.map (fun a => JOp.point a.1 a.2))).2.1).filterMap (joinIntoPoint cfg))
+
 end Kap.Props.C12
